@@ -192,7 +192,7 @@ def shards(tier):
     ncs = (0, 1, 2)
     for flavour in ("tt", "ext"):
         for nc in ncs:
-            for em in (False, True):
+            for em in (False, True) + (("cleanup",) if nc else ()):
                 for ff in (False, True):
                     out.append((flavour, nc, em, ff, None))
         out.append((flavour, 1, False, False, "front_catchall"))
